@@ -141,3 +141,52 @@ pub fn c12_threshold_ranges() {
     cover!(k > n, "k > n rejected");
     cover!(k == 0, "k = 0 rejected");
 }
+
+// ---- mixed-time-lock bookkeeping of the fragment combinators (real ExtData rules) ----------
+
+use miniscript::miniscript::types::extra_props::{ExtData, SatData, TimelockInfo};
+use miniscript::verif_hooks as hk;
+
+fn any_tl() -> TimelockInfo {
+    TimelockInfo { csv_with_height: sym::bool_(), csv_with_time: sym::bool_(), cltv_with_height: sym::bool_(), cltv_with_time: sym::bool_(), contains_combination: sym::bool_() }
+}
+fn any_sat() -> Option<SatData> {
+    if sym::bool_() {
+        let v = sym::u8_() as usize;
+        Some(SatData { max_witness_stack_size: v, max_witness_stack_count: v, max_script_sig_size: v, max_exec_stack_count: v, max_exec_op_count: v })
+    } else {
+        None
+    }
+}
+fn any_ext() -> ExtData {
+    ExtData {
+        pk_cost: sym::u8_() as usize,
+        has_free_verify: sym::bool_(),
+        static_ops: sym::u8_() as usize,
+        sat_data: any_sat(),
+        dissat_data: any_sat(),
+        timelock_info: any_tl(),
+        tree_height: sym::u8_() as usize,
+    }
+}
+
+/// Which children can be satisfied together on one path decides where a height/time
+/// conflict is an unspendable path: and_*(X,Y): X with Y; or_*(X,Z): never together;
+/// andor(X,Y,Z): X with Y only (Z runs when X is dissatisfied); wrappers: unchanged.
+#[cfg_attr(kani, kani::proof)]
+pub fn c12_timelock_rules() {
+    let (a, b, c) = (any_ext(), any_ext(), any_ext());
+    let and = hk::timelock_combine_and(a.timelock_info, b.timelock_info);
+    let or = hk::timelock_combine_or(a.timelock_info, b.timelock_info);
+    chk!(ExtData::and_b(a, b).timelock_info == and, "and_b: children are satisfied together");
+    chk!(ExtData::and_v(a, b).timelock_info == and, "and_v: children are satisfied together");
+    chk!(ExtData::or_b(a, b).timelock_info == or, "or_b: children are alternatives");
+    chk!(ExtData::or_c(a, b).timelock_info == or, "or_c: children are alternatives");
+    chk!(ExtData::or_d(a, b).timelock_info == or, "or_d: children are alternatives");
+    chk!(ExtData::or_i(a, b).timelock_info == or, "or_i: children are alternatives");
+    chk!(ExtData::and_or(a, b, c).timelock_info == hk::timelock_combine_or(and, c.timelock_info), "andor(X,Y,Z): X is satisfied together with Y, never with Z");
+    chk!(ExtData::cast_alt(a).timelock_info == a.timelock_info && ExtData::cast_swap(a).timelock_info == a.timelock_info && ExtData::cast_check(a).timelock_info == a.timelock_info, "a:/s:/c: keep time-lock info");
+    chk!(ExtData::cast_dupif(a).timelock_info == a.timelock_info && ExtData::cast_verify(a).timelock_info == a.timelock_info, "d:/v: keep time-lock info");
+    chk!(ExtData::cast_nonzero(a).timelock_info == a.timelock_info && ExtData::cast_zeronotequal(a).timelock_info == a.timelock_info, "j:/n: keep time-lock info");
+    cover!(and.contains_combination && !or.contains_combination, "and conflicts where or does not");
+}
